@@ -21,9 +21,10 @@ Definition to_signed (w : nat) (u : Z) : Z :=
 Definition in_srange (w : nat) (v : Z) : bool :=
   (- 2 ^ (bits_of w - 1) <=? v) && (v <? 2 ^ (bits_of w - 1)).
 
-Inductive order := Little | Big.
+(* byte_order argument: None (native, assumed little-endian), "<", ">" *)
+Inductive order := Native | Little | Big.
 Definition ord_bytes (o : order) (bs : list Z) : list Z :=
-  match o with Little => bs | Big => rev bs end.
+  match o with Big => rev bs | _ => bs end.
 
 (* struct.pack of one signed integer; None = struct.error (out of range) *)
 Definition enc_int (w : nat) (o : order) (v : Z) : option (list Z) :=
@@ -40,9 +41,15 @@ Definition f64_to_f32 (x : binary64) : binary32 :=
   | B754_finite _ _ s m e _ =>
       binary_normalize 24 128 (eq_refl _) (eq_refl _) mode_NE (cond_Zopp s (Zpos m)) e s
   end.
-(* struct.pack("f", x): round to nearest even (CPython 3.12 rounds overflowing values to infinity) *)
-Definition enc_f32 (o : order) (bits64 : Z) : option (list Z) :=
-  Some (ord_bytes o (le_bytes 4 (bits_of_b32 (f64_to_f32 (b64_of_bits bits64))))).
+(* a finite double whose nearest binary32 is infinite *)
+Definition f32_overflows (bits64 : Z) : bool :=
+  let x := b64_of_bits bits64 in
+  Binary.is_finite _ _ x && negb (Binary.is_finite _ _ (f64_to_f32 x)).
+(* packing a float as "f": round to nearest even.  On overflow the standard-size struct modes
+   ("<", ">") raise OverflowError ([strict]); native struct mode and array.array store infinity. *)
+Definition enc_f32 (strict : bool) (o : order) (bits64 : Z) : option (list Z) :=
+  if strict && f32_overflows bits64 then None
+  else Some (ord_bytes o (le_bytes 4 (bits_of_b32 (f64_to_f32 (b64_of_bits bits64))))).
 Definition enc_f64 (o : order) (bits64 : Z) : option (list Z) :=
   Some (ord_bytes o (le_bytes 8 bits64)).
 (* unpacking yields the bit pattern of the stored float *)
@@ -53,31 +60,32 @@ Inductive dfmt := Fb | Fh | Fi | Ff | Fd.
 Definition width (f : dfmt) : nat :=
   match f with Fb => 1 | Fh => 2 | Fi => 4 | Ff => 4 | Fd => 8 end%nat.
 (* a sample: an integer for b/h/i, the binary64 bit pattern for f/d *)
-Definition enc_sample (f : dfmt) (o : order) (v : Z) : option (list Z) :=
+Definition enc_sample (strict : bool) (f : dfmt) (o : order) (v : Z) : option (list Z) :=
   match f with
   | Fb => enc_int 1 o v | Fh => enc_int 2 o v | Fi => enc_int 4 o v
-  | Ff => enc_f32 o v | Fd => enc_f64 o v
+  | Ff => enc_f32 strict o v | Fd => enc_f64 o v
   end.
 
-Fixpoint enc_block (f : dfmt) (o : order) (b : list Z) : option (list Z) :=
+Fixpoint enc_block (strict : bool) (f : dfmt) (o : order) (b : list Z) : option (list Z) :=
   match b with
   | [] => Some []
-  | v :: r => match enc_sample f o v, enc_block f o r with
+  | v :: r => match enc_sample strict f o v, enc_block strict f o r with
               | Some x, Some y => Some (x ++ y) | _, _ => None end
   end.
 
 (* chunks.struct: "for block in blocks(seq, size, padval=padval): yield s.pack( *block)" ;
    None = the first packing error (earlier chunks have been yielded) *)
-Fixpoint pack_blocks (f : dfmt) (o : order) (bl : list (list Z)) : list (list Z) * bool :=
+Fixpoint pack_blocks (strict : bool) (f : dfmt) (o : order) (bl : list (list Z)) : list (list Z) * bool :=
   match bl with
   | [] => ([], false)
-  | b :: r => match enc_block f o b with
-              | Some x => let '(ys, e) := pack_blocks f o r in (x :: ys, e)
+  | b :: r => match enc_block strict f o b with
+              | Some x => let '(ys, e) := pack_blocks strict f o r in (x :: ys, e)
               | None => ([], true)
               end
   end.
+Definition struct_strict (o : order) : bool := match o with Native => false | _ => true end.
 Definition chunks_struct (size : nat) (f : dfmt) (o : order) (pad : Z) (xs : list Z) : list (list Z) * bool :=
-  pack_blocks f o (blocks_model size size pad xs).
+  pack_blocks (struct_strict o) f o (blocks_model size size pad xs).
 
 (* chunks.array: fixed buffer, index, flush when full, pad the last one *)
 Fixpoint arr_loop (size : nat) (buf : list Z) (xs : list Z) : list (list Z) * list Z :=
@@ -90,7 +98,7 @@ Fixpoint arr_loop (size : nat) (buf : list Z) (xs : list Z) : list (list Z) * li
   end.
 Definition chunks_array (size : nat) (f : dfmt) (o : order) (pad : Z) (xs : list Z) : list (list Z) * bool :=
   let '(ys, buf) := arr_loop size [] xs in
-  pack_blocks f o (match buf with [] => ys | _ => ys ++ [buf ++ repeat pad (size - length buf)] end).
+  pack_blocks false f o (match buf with [] => ys | _ => ys ++ [buf ++ repeat pad (size - length buf)] end).
 
 (* ---- WavStream *)
 Fixpoint group (n : nat) (fuel : nat) (l : list Z) : list (list Z) :=
